@@ -95,9 +95,38 @@ func absItems(arr []any, trace bool) string {
 }
 
 // abstract one exchange (as finally sent) for the model
+// wideNumber: some quantity of the reply does not fit 64 bits — the body cannot be decoded into the
+// client's types (JSON decoding is glue: for the model this is a failed exchange)
+func wideNumber(v any) bool {
+	switch x := v.(type) {
+	case map[string]any:
+		for k, y := range x {
+			if s, ok := y.(string); ok && (k == "number" || k == "blockNumber" || k == "transactionIndex" || k == "logIndex") &&
+				strings.HasPrefix(s, "0x") && len(strings.TrimLeft(s[2:], "0")) > 16 {
+				return true
+			}
+			if wideNumber(y) {
+				return true
+			}
+		}
+	case []any:
+		for _, y := range x {
+			if wideNumber(y) {
+				return true
+			}
+		}
+	}
+	return false
+}
+
 func absExchange(ex simnode.Exchange) string {
 	if ex.Drop || (ex.Status != 0 && ex.Status/100 != 2) || ex.RawBody != nil {
 		return "X"
+	}
+	for _, r := range ex.Responses {
+		if wideNumber(map[string]any(r)) {
+			return "X"
+		}
 	}
 	if len(ex.Requests) == 0 {
 		return "X"
@@ -427,6 +456,40 @@ var corruptions = []corruption{
 			m["blockNumber"] = numAny(v) + delta
 		}
 		return true
+	}},
+	{"number-beyond-64-bits", func(ex *simnode.Exchange, i int, r *core.Rand) bool {
+		// a block number (of the header, or of an item) that is the right number PLUS a multiple of 2^64:
+		// read modulo 2^64 it would pass every range check
+		if i >= len(ex.Responses) {
+			return false
+		}
+		wide := func(v any) (string, bool) {
+			s, ok := v.(string)
+			if !ok || !strings.HasPrefix(s, "0x") {
+				return "", false
+			}
+			return fmt.Sprintf("0x%x%016x", 1+r.Intn(15), hexn(s)), true
+		}
+		if m := resultMap(ex.Responses[i]); m != nil {
+			if w, ok := wide(m["number"]); ok {
+				m["number"] = w
+				return true
+			}
+			return false
+		}
+		arr := resultArr(ex.Responses[i])
+		if len(arr) == 0 {
+			return false
+		}
+		m, ok := arr[r.Intn(len(arr))].(map[string]any)
+		if !ok {
+			return false
+		}
+		if w, ok := wide(m["blockNumber"]); ok {
+			m["blockNumber"] = w
+			return true
+		}
+		return false
 	}},
 	{"item-other-block-hash", func(ex *simnode.Exchange, i int, r *core.Rand) bool {
 		if i >= len(ex.Responses) {
